@@ -376,36 +376,52 @@ func (m *machine) replace(rt *rapid.T) {
 		// aim at an existing key
 		row[0] = lit(rows[rapid.IntRange(0, len(rows)-1).Draw(rt, "hitrow")][0])
 	}
-	tuple := "(" + strings.Join(row, ",") + ")"
-	// twin: REPLACE removes every row that conflicts on the primary key or on a unique index
-	var conflicts []string
-	if m.keyed {
-		conflicts = append(conflicts, "id = "+row[0])
-	}
-	for _, d := range m.sortedIdx() {
-		if !d.unique {
-			continue
+	tuples := [][]string{row}
+	// multi-row REPLACE: further rows, half of them repeating the key of the first one (a row that exists
+	// only as a pending insert of the same statement is replaced again)
+	for extra := rapid.IntRange(0, 2).Draw(rt, "extraRows"); extra > 0; extra-- {
+		r2 := m.drawRow(rt, rows, "r2")
+		if rapid.Bool().Draw(rt, "repeatKey") {
+			r2[0] = row[0]
 		}
-		var conj []string
-		null := false
-		for _, c := range d.cols {
-			v := row[colIdx(c)]
-			if v == "NULL" {
-				null = true
+		tuples = append(tuples, r2)
+	}
+	// twin: REPLACE works row by row and removes every row that conflicts on the primary key or on a unique index
+	var twin, texts []string
+	for _, row := range tuples {
+		tuple := "(" + strings.Join(row, ",") + ")"
+		texts = append(texts, tuple)
+		var conflicts []string
+		if m.keyed {
+			conflicts = append(conflicts, "id = "+row[0])
+		}
+		for _, d := range m.sortedIdx() {
+			if !d.unique {
+				continue
 			}
-			conj = append(conj, c+" = "+v)
+			var conj []string
+			null := false
+			for _, c := range d.cols {
+				v := row[colIdx(c)]
+				if v == "NULL" {
+					null = true
+				}
+				conj = append(conj, c+" = "+v)
+			}
+			if !null {
+				conflicts = append(conflicts, "("+strings.Join(conj, " AND ")+")")
+			}
 		}
-		if !null {
-			conflicts = append(conflicts, "("+strings.Join(conj, " AND ")+")")
+		if len(conflicts) > 0 {
+			twin = append(twin, "DELETE FROM tn WHERE "+strings.Join(conflicts, " OR "))
 		}
+		twin = append(twin, "INSERT INTO tn VALUES "+tuple)
 	}
-	var twin []string
-	if len(conflicts) > 0 {
-		twin = append(twin, "DELETE FROM tn WHERE "+strings.Join(conflicts, " OR "))
-	}
-	twin = append(twin, "INSERT INTO tn VALUES "+tuple)
-	if m.apply(rt, "REPLACE INTO t VALUES "+tuple, twin...) {
+	if m.apply(rt, "REPLACE INTO t VALUES "+strings.Join(texts, ", "), twin...) {
 		m.st.Class("replace")
+		if len(tuples) > 1 {
+			m.st.Class("replace-multi-row")
+		}
 		if m.delNonLast {
 			m.insertAfter = true
 		}
